@@ -214,6 +214,13 @@ func (e *Engine) schedPoint(what string) {
 	if !e.schedExplore {
 		return
 	}
+	if e.schedOnlyChan {
+		switch what {
+		case "send", "recv", "close", "select-recv", "select-send", "go":
+		default:
+			return
+		}
+	}
 	cur := e.cur
 	var cands []*gor
 	for _, g := range e.gors {
